@@ -55,6 +55,16 @@ CHECKS = {
         note=("Trusted: vlib/simk.py file layer, c09 renderers. Presence of a device is observed at nowrap=True calls that return it."),
         design="DESIGN.md section 3 C10",
     ),
+    "C12": dict(
+        level="exploration",
+        technique="property-based testing (Hypothesis): generated argv/title/environ blobs, link targets and (comm, argv[0]) pairs -> inverse-of-renderer oracle over a simulated procfs",
+        text=("Generated cmdline blobs (argv with empty args/spaces/non-UTF-8, rewritten titles), environment blocks, exe/cwd link targets (NUL garbage, ' (deleted)', withheld), "
+              "exe() fallback candidates and 15-byte names (multi-byte, cut inside a character) are served to the real code; each public method is compared with the inverse of the "
+              "kernel's rendering; exe() caching is checked by counting OS accesses of the second call. Search, not proof."),
+        note=("Trusted: vlib/simk.py process files and stat/access model. A single NUL-terminated argument containing spaces is accepted either way (documented ambiguity); "
+              "environment entries starting with '=' are crash-freedom only."),
+        design="DESIGN.md section 3 C12",
+    ),
     "C19": dict(
         level="exploration",
         technique="property-based testing (Hypothesis): generated /sys and /proc hardware trees -> statement arithmetic on the model tree",
